@@ -116,11 +116,25 @@ func (c10) NRuns(tier string) int {
 	return n + 20000
 }
 func (c10) Rule() string {
-	return "corruption faults on server responses: (enumerated) every byte of every response of the entry set (quick: one entry per package type and data-type family; thorough: the whole 467-entry zoo) substituted by each of {0,1,2,3,4,7,8,0x7f,0x80,0xfe,0xff} and by its own value +-1..4; every one-byte-length data type x every data length 0..255 with random data; packet headers with every length 0..9 and all message types; every format followed by 2..3 data tokens of its own and the other family; 43 announced packet sizes (negative, tiny, 8, beyond 16 and 32 bits, not numbers); after every response the client sends one more 600-byte request; (seeded) 2- and 4-byte windows overwritten with boundary integers, truncation plus garbage, known token followed by random bytes, format followed by arbitrary row bytes, purely random streams; DebugLogPackages on in a third of the runs; non-trivial = the corrupted bytes reached a package parser (not rejected at the packet layer); distinct = distinct (kind, subject, offset, value) / wire hash"
+	return "corruption faults on server responses: (enumerated) every byte of every response of the entry set (quick: one entry per package type and data-type family; thorough: the whole 467-entry zoo) substituted by each of {0,1,2,3,4,7,8,0x7f,0x80,0xfe,0xff} and by its own value +-1..4 (a corrupted format is followed by a data package valid for the original format); every one-byte-length data type x every data length 0..255 with random data; packet headers with every length 0..9 and all message types; every format followed by 2..3 data tokens of its own and the other family; 43 announced packet sizes (negative, tiny, 8, beyond 16 and 32 bits, not numbers); after every response the client sends one more 600-byte request; (seeded) 2- and 4-byte windows overwritten with boundary integers, truncation plus garbage, known token followed by random bytes, format followed by arbitrary row bytes, purely random streams; DebugLogPackages on in a third of the runs; non-trivial = the corrupted bytes reached a package parser (not rejected at the packet layer); distinct = distinct (kind, subject, offset, value) / wire hash"
 }
 func (c10) Components() map[string]string {
 	return map[string]string{"tds (packet reader, Channel, PacketQueue, every package/format/value parser, String methods via debug log), asetypes.GoValue": "real (rewritten)", "transport": "stub: simrt.Conn", "server": "stub: byzantine peer (sim/peer encoders + corruption faults)", "process limits": "worker under ulimit -v, TotalAlloc measured per run"}
 }
+
+// c10FirstData: for every format entry the bytes of the first non-NULL-looking data entry that needs it.
+var c10FirstData = func() map[string][]byte {
+	m := map[string][]byte{}
+	for _, e := range peer.Zoo() {
+		if e.Needs == "" {
+			continue
+		}
+		if old, ok := m[e.Needs]; !ok || (len(old) <= 2 && len(e.Bytes) > 2) {
+			m[e.Needs] = e.Bytes
+		}
+	}
+	return m
+}()
 
 func c10Wrap(body []byte) []byte {
 	var w []byte
@@ -155,6 +169,13 @@ func (c10) Gen(r *Rand, idx int, tier string) interface{} {
 		mut := append([]byte{}, z.Bytes...)
 		mut[off] = val
 		body = append(body, mut...)
+		if byNeedFmt[z.Name] {
+			// a corrupted format is followed by a data package that was valid for the original format: the
+			// parsers (and the String methods) then work with an inconsistent description
+			if d, ok := c10FirstData[z.Name]; ok {
+				body = append(body, d...)
+			}
+		}
 		body = append(body, peer.Done(0, 0, 0)...)
 		p.Kind, p.Subject = "subst", z.Kind
 		p.Desc = fmt.Sprintf("%s byte %d of %d: %#02x -> %#02x", z.Name, off, len(z.Bytes), z.Bytes[off], val)
@@ -324,7 +345,7 @@ func (c10) Run(plan interface{}, schedSeed uint64, replay []simrt.Choice, lenien
 	runtime.ReadMemStats(&ms0)
 	cfg := simrt.Config{Seed: schedSeed, Strategy: "uniform", ColdQueueLocks: true, EOFReadCostMs: 200, MaxSteps: 60000, Replay: replay, Lenient: lenient, KeepLog: keepLog}
 	got := runResp(cfg, respDelivery{Packets: [][]byte{wire}, TermAt: -1},
-		respClient{QueueSize: 100, ReadTimeoutS: 1, DebugLog: p.DebugLog, DrainFor: 5 * time.Second, NoDump: true, SendAfter: 600})
+		respClient{QueueSize: 100, ReadTimeoutS: 1, DebugLog: p.DebugLog, DrainFor: 5 * time.Second, NoDump: true, SendAfter: 600, Render: true})
 	runtime.ReadMemStats(&ms1)
 	out := got.Out
 	StdOutcome(v, out)
